@@ -1,6 +1,6 @@
 //! C10: text encoding is transparent — codecs, lossy UTF-8, line decoding in
 //! the four encodings; cases, implementation run, oracle.
-use super::c08::{fail, bundled_texts, case_c08, decode_bytes, diff_results, dump_lines, encode_text, gen_text, has_lf_byte_unit, impl_lines, lines_via, MapResult, ENC_NAMES, LF_BYTE_CHARS};
+use super::c08::{fail, bundled_texts, case_c08, decode_bytes, diff_results, dump_lines, encode_text, gen_text, has_lf_byte_unit, impl_lines, lf_cuts_utf16le, lines_via, MapResult, ENC_NAMES, LF_BYTE_CHARS};
 use crate::out::Out;
 use crate::proto::Line;
 use crate::rng::Rng;
@@ -154,6 +154,39 @@ fn four_encodings(out: &mut Out, name: &str, text: &str, with_model: bool) {
     }
 }
 
+/// UTF-16LE+BOM streams that end right after the low byte of a line feed (an
+/// odd trailing byte 0x0A): the odd byte is dropped, i.e. the lines and the
+/// decoded map are those of the stream with the complete line feed; never an
+/// error.  `every`: use every n-th line feed (and the last).
+fn lf_cut_streams(out: &mut Out, name: &str, text: &str, every: usize) {
+    let full = encode_text(text, 2);
+    let cuts = lf_cuts_utf16le(&full);
+    for (j, &c) in cuts.iter().enumerate() {
+        if !(every == usize::MAX || j % every == 0 || j + 1 == cuts.len()) {
+            continue;
+        }
+        let (cut, whole) = (&full[..c], &full[..c + 1]);
+        let desc = format!("{name}: UTF-16LE stream of {} bytes cut after the low byte of the line feed at {} [{}]", full.len(), c - 1, hex(&cut[cut.len().saturating_sub(12)..]));
+        let got = lines_case(out, cut, desc.clone());
+        let want = lines_via(std::io::Cursor::new(whole));
+        out.oracle_checks += 2;
+        out.count("lines.utf16le_lf_cut");
+        match (&got, &want) {
+            (Ok(Ok(a)), Ok(Ok(b))) => {
+                if a != b {
+                    out.fail("", &desc, &format!("lines differ from those of the stream with the complete line feed: {} vs {} lines, last {:?} vs {:?}", a.len(), b.len(), a.last(), b.last()));
+                }
+            }
+            (Ok(Err(e)), _) => out.fail("", &desc, &format!("line decoder failed with {:?} on an in-memory buffer", e.kind())),
+            (Err(p), _) => out.fail("", &desc, &format!("panic: {p}")),
+            _ => {}
+        }
+        if let Some(d) = diff_results(&decode_bytes(whole), &decode_bytes(cut)) {
+            out.fail("", &desc, &format!("decode of the stream with the complete line feed vs the cut stream: {d}"));
+        }
+    }
+}
+
 /// one scalar value as the only content of `Title:`, in the four encodings
 fn scalar_title(out: &mut Out, c: char, buf: &mut String) {
     buf.clear();
@@ -179,7 +212,7 @@ fn scalar_title(out: &mut Out, c: char, buf: &mut String) {
     }
 }
 
-pub const RULE: &str = "Encoding::decode on single buffers (valid text with injected ill-formed UTF-8 sequences of every Table 3-7 class, UTF-16 with lone/swapped surrogates and odd tails), std from_utf8 / from_utf8_lossy / decode_utf16 against the transcriptions, Encoding::from_bom on short buffers, and the line decoder over bundled maps and generated .osu texts in UTF-8, UTF-8+BOM, UTF-16LE+BOM, UTF-16BE+BOM (including invalid-byte and surrogate injections into single lines and truncated streams); thorough: all 1-3 byte strings and every Unicode scalar value as Title content; non-trivial = buffer of at least 2 bytes / stream with at least one complete line; distinct = distinct case lines";
+pub const RULE: &str = "Encoding::decode on single buffers (valid text with injected ill-formed UTF-8 sequences of every Table 3-7 class, UTF-16 with lone/swapped surrogates and odd tails, UTF-16LE streams cut right after the low byte of a line feed), std from_utf8 / from_utf8_lossy / decode_utf16 against the transcriptions, Encoding::from_bom on short buffers, and the line decoder over bundled maps and generated .osu texts in UTF-8, UTF-8+BOM, UTF-16LE+BOM, UTF-16BE+BOM (including invalid-byte and surrogate injections into single lines and truncated streams); thorough: all 1-3 byte strings and every Unicode scalar value as Title content; non-trivial = buffer of at least 2 bytes / stream with at least one complete line; distinct = distinct case lines";
 
 pub fn generate(tier: &str, seed: u64, out: &mut Out) {
     let thorough = tier == "thorough";
@@ -189,19 +222,10 @@ pub fn generate(tier: &str, seed: u64, out: &mut Out) {
     // D5: 0x0A inside a UTF-16 code unit
     four_encodings(out, "corpus-D5", "osu file format v14\n\n[Metadata]\nTitle:上x\n", true);
     four_encodings(out, "corpus-D5", "osu file format v14\n\n[Metadata]\nTitle:\u{0a41}x\nArtist:y\n", true);
-    // D6: UTF-16LE stream cut after the low byte of the last LF
-    {
-        let text = "osu file format v14\n\n[Metadata]\nTitle:abc\n";
-        let full = encode_text(text, 2);
-        let cut = &full[..full.len() - 1];
-        let res = lines_case(out, cut, "corpus-D6: UTF-16LE stream cut after the low byte of the last LF".into());
-        let a = decode_bytes(&full);
-        let b = decode_bytes(cut);
-        out.oracle_checks += 1;
-        if let Some(d) = diff_results(&a, &b) {
-            fail(out, "D6", "UTF-16LE `osu file format v14\\n\\n[Metadata]\\nTitle:abc\\n` without its last byte (odd trailing byte 0x0A)", &format!("{d} (line decoder: {})", match res { Ok(Err(e)) => format!("{:?}", e.kind()), _ => "ok".into() }));
-        }
-    }
+    // the input of the repaired finding D6: UTF-16LE stream cut after the low byte of the last LF
+    // (an odd trailing byte 0x0A); not exempted any more
+    lf_cut_streams(out, "corpus-former-D6", "osu file format v14\n\n[Metadata]\nTitle:abc\n", usize::MAX);
+    lf_cut_streams(out, "corpus-former-D6-crlf", "osu file format v14\r\n\r\n[Metadata]\r\nTitle:\u{6f22}\u{1f600} \r\nArtist:y", usize::MAX);
 
     // ---- Encoding::from_bom
     {
@@ -433,6 +457,15 @@ pub fn generate(tier: &str, seed: u64, out: &mut Out) {
         }
     }
 
+    // ---- UTF-16LE streams cut right after the low byte of a line feed
+    for i in 0..(if thorough { 300 } else { 30 }) {
+        let text = if i % 2 == 0 { gen_text(&mut r, false) } else { smalls[r.below(smalls.len())].1.clone() };
+        if has_lf_byte_unit(&text) {
+            continue; // D5 class: a 0x0A byte inside another code unit shifts the pairing
+        }
+        lf_cut_streams(out, "lf-cut", &text, if thorough { 1 } else { 5 });
+    }
+
     // ---- unpaired surrogates in one line of a UTF-16 stream; odd tails
     for i in 0..(if thorough { 3000 } else { 300 }) {
         let text = if i % 2 == 0 { gen_text(&mut r, false) } else { smalls[r.below(smalls.len())].1.clone() };
@@ -458,8 +491,7 @@ pub fn generate(tier: &str, seed: u64, out: &mut Out) {
         // an odd trailing byte is dropped
         let want: Vec<String> = units.split_inclusive(|u| *u == 0x000A).map(|l| String::from_utf16_lossy(l).trim_end().to_string()).collect();
         let lf_units = units.iter().any(|u| *u != 0x000A && ((u & 0xFF) == 0x0A || (u >> 8) == 0x0A));
-        let d6 = le && odd_tail == Some(0x0A);
-        let class = if lf_units { "D5" } else if d6 { "D6" } else { "" };
+        let class = if lf_units { "D5" } else { "" };
         match &res {
             Ok(Ok(lines)) => {
                 // the odd trailing byte is dropped; a final buffer holding only
